@@ -37,14 +37,9 @@ struct Res {
     /// try_get_len answer: 0 = None, k+1 = Some(k)
     lenq: usize,
     no: bool,
-    /// facts observed while the operation ran; asserted only after every thread has run
-    bad_idx: bool,
-    bad_seq: bool,
-    bad_len: bool,
-    bad_more: bool,
 }
 
-const R0: Res = Res { used: false, kind: 0, n: 0, some: false, begin: 0, count: 0, first: 0, last: 0, lenq: 0, no: false, bad_idx: false, bad_seq: false, bad_len: false, bad_more: false };
+const R0: Res = Res { used: false, kind: 0, n: 0, some: false, begin: 0, count: 0, first: 0, last: 0, lenq: 0, no: false };
 
 type It = ConIterOfIter<usize, TProbe>;
 
@@ -65,7 +60,7 @@ fn do_op(it: &It, mask: u8, nmax: usize, len: usize) -> Res {
                 r.some = true;
                 r.begin = x.idx;
                 r.count = 1;
-                r.bad_idx = x.value != x.idx;
+                assert!(x.value == x.idx, "C02: element delivered with index i is not the source element at position i");
             }
         }
     } else if on(P_NEXT) {
@@ -89,18 +84,16 @@ fn do_op(it: &It, mask: u8, nmax: usize, len: usize) -> Res {
                 r.begin = c.begin_idx;
                 let mut vals = c.values;
                 r.count = vals.len();
-                r.bad_len = !(r.count >= 1 && r.count <= n);
+                assert!(r.count >= 1 && r.count <= n, "C03: chunk must be non-empty and at most n long");
                 let mut k = 0;
                 while k < CH {
                     if k < r.count {
                         let v = vals.next();
-                        if v != Some(r.begin + k) {
-                            r.bad_seq = true;
-                        }
+                        assert!(v == Some(r.begin + k), "C02 C03: chunk element k is not the source element at begin_idx + k");
                     }
                     k += 1;
                 }
-                r.bad_more = r.count <= CH && vals.next().is_some();
+                assert!(vals.next().is_none(), "C03: chunk yields more than it announced");
                 core::mem::forget(vals);
             }
         }
@@ -116,18 +109,16 @@ fn do_op(it: &It, mask: u8, nmax: usize, len: usize) -> Res {
                 r.begin = c.begin_idx;
                 let mut vals = c.values;
                 r.count = vals.len();
-                r.bad_len = !(r.count >= 1 && r.count <= n);
+                assert!(r.count >= 1 && r.count <= n, "C03: buffered chunk must be non-empty and at most n long");
                 let mut k = 0;
                 while k < CH {
                     if k < r.count {
                         let v = vals.next();
-                        if v != Some(r.begin + k) {
-                            r.bad_seq = true;
-                        }
+                        assert!(v == Some(r.begin + k), "C02 C03: buffered chunk element k is not the source element at begin_idx + k");
                     }
                     k += 1;
                 }
-                r.bad_more = r.count <= CH && vals.next().is_some();
+                assert!(vals.next().is_none(), "C03: buffered chunk yields more than it announced");
             }
         }
         core::mem::forget(b);
@@ -158,7 +149,7 @@ fn run2(mask: [u8; 2], nops: [usize; 2], lmax: usize, nmax: usize, hb: bool) {
     let hint: u8 = kani::any();
     kani::assume(hint < 3);
     let it: It = TProbe { len, hint }.into_con_iter();
-    tbmc::guess_and_validate(len, hb);
+    tbmc::guess_and_validate(len);
     let mut res = [[R0; OPS]; 2];
     let mut t = 0;
     while t < 2 {
@@ -189,10 +180,6 @@ fn run2(mask: [u8; 2], nops: [usize; 2], lmax: usize, nmax: usize, hb: bool) {
         while o < OPS {
             let r = res[t][o];
             if r.used && is_pull(r.kind) {
-                assert!(!r.bad_idx, "C02: element delivered with index i is not the source element at position i");
-                assert!(!r.bad_seq, "C02 C03: chunk element k is not the source element at begin_idx + k");
-                assert!(!r.bad_len, "C03: a chunk must be non-empty and at most n long");
-                assert!(!r.bad_more, "C03: a chunk yields more elements than it announced");
                 if r.some {
                     assert!(r.begin + r.count <= len, "C01 C03: a position beyond the source was delivered");
                     if r.kind == P_CHUNK || r.kind == P_BUF {
